@@ -258,19 +258,20 @@ theorem pending_exactly_once_take (t : TrapMap) (s : Nat) (g : GrandState) (n : 
     pending for it; it is then caught `n` times (any other signals may be pending too).  The next
     `run_traps_for_caught_signals` outside a trap runs the body of `s` exactly once if `n ≥ 1` and
     not at all if `n = 0`; `$?` after the run is `$?` before; a second run right after runs
-    nothing.  (Bodies that do not end in a divert such as `exit`/`return`.) -/
-theorem pending_exactly_once (body : Nat → Int → BodyResult) (hb : ∀ c e, (body c e).divert = false)
+    nothing.  (Bodies that do not end in a divert; for diverting bodies see
+    `pending_survives_divert`.) -/
+theorem pending_exactly_once (body : Body) (hm : MapPreserving body) (hb : NoDivert body)
     (t : TrapMap) (hsorted : Sorted t) (s c : Nat) (hs0 : s ≠ 0) (g : GrandState)
     (hg : get t s = some g) (hact : g.current.action = .command c) (hp : g.current.pending = false)
     (n : Nat) (exit : Int) :
     let r := runTrapsForCaughtSignals body false (catchN t s n) exit
-    r.2.2.filter (fun p => p.1 == s) = (if n = 0 then [] else [(s, c)])
-    ∧ r.2.1 = exit
-    ∧ (runTrapsForCaughtSignals body false r.1 exit).2.2 = [] := by
+    r.runs.filter (fun p => p.1 == s) = (if n = 0 then [] else [(s, c)])
+    ∧ r.exit = exit
+    ∧ (runTrapsForCaughtSignals body false r.traps exit).runs = [] := by
   intro r
   have hfuel : ∀ t' : TrapMap, npend t' < t'.length + 1 := fun t' =>
     Nat.lt_succ_of_le (npend_le_length t')
-  have hd := drain_spec body hb ((catchN t s n).length + 1) (catchN t s n) exit [] (hfuel _)
+  have hd := drain_spec body hm hb ((catchN t s n).length + 1) (catchN t s n) exit [] (hfuel _)
   have hr : r = drain body ((catchN t s n).length + 1) (catchN t s n) exit [] := by
     simp [r, runTrapsForCaughtSignals]
   refine ⟨?_, ?_, ?_⟩
@@ -281,22 +282,68 @@ theorem pending_exactly_once (body : Nat → Int → BodyResult) (hb : ∀ c e, 
       rw [catchN_get t s g n hg]
       simp [owed, GrandState.markAsCaught, hact, hs0]
   · rw [hr]; exact hd.2.1
-  · have hz : npend r.1 = 0 := by rw [hr]; exact hd.2.2
-    have hd2 := drain_spec body hb (r.1.length + 1) r.1 exit [] (hfuel _)
+  · have hz : npend r.traps = 0 := by rw [hr]; exact hd.2.2.1
+    have hd2 := drain_spec body hm hb (r.traps.length + 1) r.traps exit [] (hfuel _)
     simp only [runTrapsForCaughtSignals, Bool.false_eq_true, if_false]
     rw [hd2.1, npend_zero_pendingCommands _ hz]
     rfl
 
+/-- ★ `pending_survives_divert`: the runner takes ONE caught signal, runs its action and, if the
+    action ends in a divert (`return`, `exit`, interrupt, …), leaves at once.  For every set of
+    pending signals and every outcome of every action:
+    (i) at one boundary, the actions run followed by the actions still pending are exactly the
+        actions that were pending, in signal order — so after a run cut short by a divert every
+        signal not yet run is still pending, and none is run twice;
+    (ii) a run that is not cut short leaves nothing pending and keeps `$?`;
+    (iii) over any sequence of later boundaries (whatever `$?` is there) the same conservation
+        holds, and once there have been as many boundaries as pending actions, every one of them
+        has run exactly once: the total run list *is* the list that was pending;
+    (iv) per signal: the runs of `s` so far plus what is still owed to `s` is what was owed to `s`
+        (at most one run, and exactly one in the end). -/
+theorem pending_survives_divert (body : Body) (hm : MapPreserving body) (t : TrapMap)
+    (hsorted : Sorted t) (exit : Int) (es : List Int) :
+    ((runTrapsForCaughtSignals body false t exit).runs
+        ++ pendingCommands (runTrapsForCaughtSignals body false t exit).traps = pendingCommands t)
+    ∧ ((runTrapsForCaughtSignals body false t exit).divert = none →
+        pendingCommands (runTrapsForCaughtSignals body false t exit).traps = []
+        ∧ (runTrapsForCaughtSignals body false t exit).exit = exit)
+    ∧ ((boundaries body es t []).2 ++ pendingCommands (boundaries body es t []).1 = pendingCommands t)
+    ∧ ((pendingCommands t).length ≤ es.length → (boundaries body es t []).2 = pendingCommands t)
+    ∧ (∀ s, ((boundaries body es t []).2 ++ pendingCommands (boundaries body es t []).1).filter
+              (fun p => p.1 == s) = owed (get t s) s) := by
+  have hc := runTraps_conserve body hm t exit
+  have hb := boundaries_conserve body hm es t []
+  simp only [List.nil_append] at hb
+  refine ⟨hc.1, ?_, hb, ?_, ?_⟩
+  · intro hd
+    have := hc.2.1 hd
+    exact ⟨npend_zero_pendingCommands _ this.1, this.2⟩
+  · intro hlen
+    have := boundaries_complete body hm es t [] hlen
+    rw [this, List.append_nil] at hb
+    exact hb
+  · intro s
+    rw [hb]
+    exact pendingCommands_filter t s hsorted
+
 /-- ☆ while a signal trap is running (`in_trap`), nothing is run and nothing is lost: the pending
     flags stay for the next boundary -/
-theorem no_nested_trap (body : Nat → Int → BodyResult) (t : TrapMap) (exit : Int) :
-    runTrapsForCaughtSignals body true t exit = (t, exit, []) := rfl
+theorem no_nested_trap (body : Body) (t : TrapMap) (exit : Int) :
+    runTrapsForCaughtSignals body true t exit = { traps := t, exit := exit, runs := [] } := rfl
 
 /-- ☆ `run_trap` restores `$?` unless the body ends in `Divert::Interrupt` -/
-theorem run_trap_restores_status (body : Nat → Int → BodyResult) (c : Nat) (exit : Int)
-    (h : ¬ ((body c exit).divert = true ∧ (body c exit).interrupt = true)) :
-    (runTrap body c exit).1 = exit := by
-  simp [runTrap, h]
+theorem run_trap_restores_status (body : Body) (c : Nat) (exit : Int) (t : TrapMap)
+    (h : ∀ st, (body c exit t).1.divert ≠ some (.interrupt st)) :
+    (runTrap body c exit t).1 = exit := by
+  unfold runTrap
+  cases hd : (body c exit t).1.divert with
+  | none => simp only [hd]
+  | some d =>
+    cases d with
+    | interrupt st => exact absurd hd (h st)
+    | ret st => simp only [hd]
+    | exit st => simp only [hd]
+    | other => simp only [hd]
 
 /-- non-vacuity: two signals pending (one caught three times), one command each; both bodies run
     once, in signal order, with `$?` = 5 kept although every body sets `$?` to 7 -/
@@ -304,7 +351,20 @@ example :
     let t : TrapMap := catchN (catchSignal
       (set (set [] SIGUSR1 { current := { action := .command 1, origin := .user 0 } })
         SIGINT { current := { action := .command 2, origin := .user 1 } }) SIGINT) SIGUSR1 3
-    (runTrapsForCaughtSignals (fun _ _ => { exit := 7 }) false t 5).2 = (5, [(SIGINT, 2), (SIGUSR1, 1)]) := by
+    let r := runTrapsForCaughtSignals (fun _ _ t => ({ exit := 7 }, t)) false t 5
+    (r.exit, r.runs, r.divert) = (5, [(SIGINT, 2), (SIGUSR1, 1)], none) := by
+  decide
+
+/-- non-vacuity of `pending_survives_divert`: the action of SIGINT ends in `return 3`; SIGUSR1 stays
+    pending at that boundary and runs, once, at the next one -/
+example :
+    let t : TrapMap := catchSignal (catchSignal
+      (set (set [] SIGUSR1 { current := { action := .command 1, origin := .user 0 } })
+        SIGINT { current := { action := .command 2, origin := .user 1 } }) SIGINT) SIGUSR1
+    let body : Body := fun c _ t => ({ exit := 3, divert := if c = 2 then some (.ret (some 3)) else none }, t)
+    let r := runTrapsForCaughtSignals body false t 5
+    (r.runs, r.divert, pendingCommands r.traps) = ([(SIGINT, 2)], some (.ret (some 3)), [(SIGUSR1, 1)])
+    ∧ (boundaries body [5, 3] t []).2 = [(SIGINT, 2), (SIGUSR1, 1)] := by
   decide
 
 end YashModel.Trap
